@@ -61,7 +61,7 @@ func init() {
 		Run:      ruleFmt2})
 	Register(&Rule{ID: "R-FMT-3", Props: []string{"C02"}, Floor: 11,
 		Doc:      "each loader dispatched by loadViewFromFile records what it detects in the FileInfo it was given: detected encoding → Encoding, reader.DetectedLineBreak → LineBreak, reader.EnclosedAll → EncloseAll, JSON escape type → JsonEscape and UTF8 → Encoding for the JSON loaders (one obligation per detection source the loader creates)",
-		Controls: []string{"CtlLoaderDropsLineBreak"},
+		Controls: []string{"CtlLoaderDropsLineBreak", "CtlLoaderHelperDropsEncoding"},
 		Run:      ruleFmt3})
 	Register(&Rule{ID: "R-FMT-4", Props: []string{"C02"}, Floor: 1,
 		Doc:      "in Transaction.Commit and the lib/query helpers it calls before the swap (EncodeView and FileInfo.ExportOptions excluded) none of the 10 dialect fields of the *session* options tx.Flags.ExportOptions is read: what is appended to a table file must come from the file's own dialect",
@@ -460,9 +460,37 @@ func ruleFmt3(c *Ctx) {
 	for _, L := range loaders {
 		c.Touch(L)
 		fns := fxWithClosures(L)
+		// detection may be delegated to a lib/query helper that is handed the
+		// loader's FileInfo (one detectFileEncoding shared by several loaders): its
+		// sources count for this loader — one obligation per loader and source, so
+		// merging the blocks of three loaders into one helper keeps three obligations
+		scan := append([]*ssa.Function(nil), fns...)
+		seenH := map[*ssa.Function]bool{}
+		lparam := fxParamOfType(L, "lib/query.FileInfo")
+		for _, fn := range fns {
+			for _, ci := range core.Calls(fn) {
+				H := core.StaticCallee(ci)
+				if H == nil || H.Blocks == nil || H == L || seenH[H] || !c.P.InPkg(H, "lib/query", core.ControlPkg) || fxParamOfType(H, "lib/query.FileInfo") == nil {
+					continue
+				}
+				handed := false
+				for _, a := range ci.Common().Args {
+					for _, o := range core.Origins(a, false) {
+						if lparam != nil && o == ssa.Value(lparam) {
+							handed = true
+						}
+					}
+				}
+				if handed {
+					seenH[H] = true
+					scan = append(scan, fxWithClosures(H)...)
+					c.Touch(H)
+				}
+			}
+		}
 		var srcs []fxSource
 		hasEscape := false
-		for _, fn := range fns {
+		for _, fn := range scan {
 			for _, ci := range core.Calls(fn) {
 				call, ok := ci.(*ssa.Call)
 				if !ok {
